@@ -11,7 +11,7 @@ from leanfmt import lean_list, lean_str
 
 ID = "C08"
 LEAN_MODULES = ["EzdxfVerif.Props.C08"]
-DRIVER_DEPS = ["EzdxfVerif.Model.Readers", "EzdxfVerif.Model.ReadersWrite", "EzdxfVerif.Model.ReadersDetect", "EzdxfVerif.Model.ReadersLines", "EzdxfVerif.Model.ReadersRepair", "EzdxfVerif.Model.ReadersSniff", "EzdxfVerif.Model.ReadersRecVer", "EzdxfVerif.Gen.ReaderTables", "Drivers.Proto"]
+DRIVER_DEPS = ["EzdxfVerif.Model.Readers", "EzdxfVerif.Model.ReadersWrite", "EzdxfVerif.Model.ReadersDetect", "EzdxfVerif.Model.ReadersLines", "EzdxfVerif.Model.ReadersRepair", "EzdxfVerif.Model.ReadersSniff", "EzdxfVerif.Model.ReadersRecVer", "EzdxfVerif.Model.ReadersFilter", "EzdxfVerif.Gen.ReaderTables", "Drivers.Proto"]
 RULE = (
     "correspondence (real code vs Lean model, one line protocol driver): X1 2500/40000 generated ASCII tag streams "
     "(well-formed 60 %, else a structural fault: missing/duplicate/shuffled sections, dropped SECTION/ENDSEC/EOF/name tags, "
@@ -54,7 +54,11 @@ RULE = (
     "single_pass_modelspace, opendxf().modelspace()): snapshots (type, order, every existing DXF attribute, exported "
     "content tags, linked sub-entities) compared pairwise for exact equality and with the source document; the written "
     "files are checked for well-formedness by the harness-owned parser; O2 r12writer call sequences (ASCII and binary) "
-    "read by every reader and compared with the input rounded to 6 decimals (Decimal, half-even, exact binary value)."
+    "read by every reader and compared with the input rounded to 6 decimals (Decimal, half-even, exact binary value); O3 "
+    "reader purity on every O1 document: a read with a types filter (list / iterator / set) returns exactly the unfiltered "
+    "entities of these types, an unfiltered read after filtered reads returns what it returned before, "
+    "iterdxf.SUPPORTED_TYPES is unchanged. All formats of a document are written from the state after a first, discarded "
+    "write (Drawing.write may change the document; recorded as an observation)."
 )
 TRUSTED_BASE = [
     "tag level model: values are strings as the low level loaders deliver them; text decoding (C09), value typing and point "
@@ -72,6 +76,9 @@ TRUSTED_BASE = [
     "the canonical codec names",
 ]
 ASSUMPTIONS = [
+    "every format of an oracle document is produced from the settled in-memory state (after writes until two consecutive "
+    "ENTITIES sections are equal): the property compares readers on the same content; that the first Drawing.write may "
+    "change the document (GROUP with members in several layouts) is recorded as an observation, not judged here",
     "generated values contain no line breaks (a string value with CR/LF is not a valid DXF value: C04/C09); lone_cr_differs "
     "states what the line splitters do with such values",
     "r12writer: line types / text styles other than the defaults only together with fixed_tables=True (otherwise recover's "
@@ -134,6 +141,22 @@ def _probe_yields_falsy(tmp: str) -> bool:
     if types not in (["LINE"], ["POLYLINE", "LINE"]):
         raise ValueError("iterdxf.modelspace probe: unexpected result %r" % types)
     return len(types) == 2
+
+
+def _probe_filter_drops_implicit(tmp: str) -> bool:
+    """iterdxf.modelspace(types=["POLYLINE"]) on a file with INSERT + ATTRIB + SEQEND in front of a POLYLINE: is the SEQEND of
+    the skipped INSERT kept back (True) or delivered as a stand-alone entity (False)?"""
+    from ezdxf.addons import iterdxf
+
+    p = os.path.join(tmp, "probe3.dxf")
+    with open(p, "wb") as fp:
+        fp.write(b"0\nSECTION\n2\nENTITIES\n0\nINSERT\n8\n0\n66\n1\n2\nB\n10\n0\n20\n0\n30\n0\n0\nATTRIB\n8\n0\n10\n0\n20\n0\n30\n0\n40\n1\n"
+                 b"1\nv\n2\nT\n0\nSEQEND\n8\n0\n0\nPOLYLINE\n8\n0\n66\n1\n10\n0\n20\n0\n30\n0\n70\n0\n0\nVERTEX\n8\n0\n10\n1\n20\n1\n30\n0\n"
+                 b"0\nSEQEND\n8\n0\n0\nENDSEC\n0\nEOF\n")
+    types = [e.dxftype() for e in iterdxf.modelspace(p, types=["POLYLINE"])]
+    if types not in (["POLYLINE"], ["SEQEND", "POLYLINE"]):
+        raise ValueError("iterdxf.modelspace(types=['POLYLINE']) probe: unexpected result %r" % types)
+    return types == ["POLYLINE"]
 
 
 def _probe_max_code(tmp: str) -> int:
@@ -269,6 +292,62 @@ def _probe_bin_scan_full() -> bool:
     return enc == "cp932"
 
 
+R12_ITER_ARGS = {"vertices": [(0, 0, 0), (1, 0, 0), (1, 1, 0), (0, 1, 0)], "points": [(0, 0), (1, 1)], "faces": [(0, 1, 2)]}
+
+
+def r12_iterable_params():
+    """every add_* method of R12FastStreamWriter with its parameters annotated as Iterable (from the live signatures)"""
+    import inspect
+
+    from ezdxf.addons.r12writer import R12FastStreamWriter
+
+    out = []
+    for name, fn in inspect.getmembers(R12FastStreamWriter, inspect.isfunction):
+        if name.startswith("add_"):
+            its = [p for p, v in inspect.signature(fn).parameters.items() if "Iterable" in str(v.annotation)]
+            if its:
+                out.append((name, its))
+    return out
+
+
+def _probe_r12_iterables():
+    """how often does each add_* method start an iteration over each of its Iterable arguments?  (a generator survives
+    exactly one; the probe object counts the __iter__ calls and the output must be the one of the list argument)"""
+    from ezdxf.addons.r12writer import r12writer
+
+    class Once:
+        def __init__(self, data):
+            self.data, self.n = list(data), 0
+
+        def __iter__(self):
+            self.n += 1
+            return iter(self.data)
+
+    table = []
+    for name, its in r12_iterable_params():
+        for p in its:
+            if p not in R12_ITER_ARGS:
+                raise ValueError(f"r12writer.{name}: no probe value for the Iterable parameter {p!r}")
+
+        def run(wrap):
+            sio = io.StringIO()
+            with r12writer(sio) as w:
+                kw = {p: wrap(R12_ITER_ARGS[p]) for p in its}
+                objs = dict(kw)
+                if name == "add_polymesh":
+                    kw["size"] = (2, 2)
+                getattr(w, name)(**kw)
+            return sio.getvalue(), objs
+
+        ref, _ = run(list)
+        got, objs = run(Once)
+        if got != ref:
+            raise ValueError(f"r12writer.{name}: output for a re-iterable object differs from the output for a list")
+        for p in its:
+            table.append((name, p, objs[p].n))
+    return table
+
+
 def _r12export_order():
     """statement order of R12Exporter.to_string (the joined parts) and export_layouts_to_string, from the AST"""
     import ast
@@ -357,12 +436,14 @@ def regenerate(ctx):
     flush = _probe_single_pass_flush()
     maxcode = _probe_max_code(str(ctx.scratch))
     falsy = _probe_yields_falsy(str(ctx.scratch))
+    drops_implicit = _probe_filter_drops_implicit(str(ctx.scratch))
     export_order, entity_order = _export_order()
     from ezdxf.tools import codepage
 
     cp_table = list(codepage.codepage_to_encoding.items())
     bin_full = _probe_bin_scan_full()
     r12x_order, r12x_layouts = _r12export_order()
+    r12_iters = _probe_r12_iterables()
     from ezdxf.lldxf import repair
 
     toolbox = [(k, list(v.keywords["codes"])) for k, v in repair.COORDINATE_FIXING_TOOLBOX.items()]
@@ -412,11 +493,19 @@ def binScanFull : Bool := {"true" if bin_full else "false"}
 /-- lldxf/repair.py COORDINATE_FIXING_TOOLBOX: entity type -> point codes re-ordered by recover's tag_reorder_layer -/
 def coordinateFixing : List (String × List Nat) := {lean_list("(" + lean_str(k) + ", " + lean_list(str(c) for c in v) + ")" for k, v in toolbox)}
 
+/-- every add_* method of R12FastStreamWriter x every parameter annotated Iterable: number of iterations the method starts
+    over the argument (probe object counting __iter__) -/
+def r12IterCounts : List (String × String × Nat) := {lean_list("(" + lean_str(a) + ", " + lean_str(b) + ", " + str(c) + ")" for a, b, c in r12_iters)}
+
 /-- addons/r12export.py R12Exporter.to_string: the joined parts in order (AST) -/
 def r12exportOrder : List String := {lean_list(lean_str(x) for x in r12x_order)}
 
 /-- R12Exporter.export_layouts_to_string: statements in order (AST) -/
 def r12exportLayouts : List String := {lean_list(lean_str(x) for x in r12x_layouts)}
+
+/-- probe of iterdxf.modelspace(types=["POLYLINE"]): stand-alone entities of the types that were only loaded to build the
+    requested POLYLINE / INSERT entities are not returned -/
+def filterDropsImplicit : Bool := {"true" if drops_implicit else "false"}
 
 /-- r12writer.rnd = partial(round, ndigits=...) -/
 def r12Digits : Nat := {r12writer.rnd.keywords["ndigits"]}
@@ -551,6 +640,11 @@ def insert_comment(r, tags, lo):
     tags.insert(r.choice(pos), (999, "a comment"))
 
 
+# every separator of str.splitlines() except \n, \r: only \n (and \r\n, and \r in text mode) end a DXF line
+SPLITLINES_ASCII = ["a\x0bb", "a\x0cb", "\x1cx", "y\x1d", "a\x1eb", "\x0b", "x\x1c\x1d\x1ey"]
+SPLITLINES_UNI = ["a\x85b", "a\u2028b", "a\u2029b", "\u2028", "x\x85", "\u2029y"]
+
+
 class Gen:
     def __init__(self, rng):
         self.rng = rng
@@ -580,7 +674,7 @@ class Gen:
         body = SIMPLE[typ]
         if typ == "TEXT":
             # values with leading / trailing white space: only the code-0 values are stripped by the tag compilers
-            body = body[:-1] + [(1, r.choice(["abc", " lead", "trail ", "\ttab\t", "a  b", " ", "x\x0c", "\x1fy", "Total: "]))]
+            body = body[:-1] + [(1, r.choice(["abc", " lead", "trail ", "\ttab\t", "a  b", " ", "x\x0c", "\x1fy", "Total: "] + SPLITLINES_ASCII))]
         return [self.group(typ, body, psp)]
 
     def polyline(self, broken=0):
@@ -773,6 +867,13 @@ def _reader_case(args):
     _quiet()
     rng = random.Random(f"{seed}/rd/{idx}")
     kind, tags = gen_stream(rng)
+    # a file every reader decodes as UTF-8 ($ACADVER >= AC1021 and $DWGCODEPAGE in the header: recover needs both):
+    # TEXT values with the non-ASCII separators of str.splitlines()
+    if any(t == (9, "$DWGCODEPAGE") for t in tags) and any(
+            t == (9, "$ACADVER") and tags[j + 1][1] >= "AC1021" for j, t in enumerate(tags[:-1])) and kind == "wellformed":     # (text decoding of faulty files: not the tag level)
+        for j in range(1, len(tags)):
+            if tags[j][0] == 1 and tags[j][1] not in ("unknown entity", "x", "v") and rng.random() < 0.5:
+                tags[j] = (1, rng.choice(SPLITLINES_UNI))
     path = os.path.join(_POOL_TMP, "rd-%d.dxf" % os.getpid())
     # line ends: LF, CRLF or mixed per line (the tag-level result must not depend on it: theorem lines_agree)
     style = rng.choice(["lf", "lf", "crlf", "mixed"])
@@ -812,7 +913,8 @@ def correspond(ctx):
                 continue   # HeaderSection.load validates the header variables (content level, not modelled)
             if rd == "rec" and "padded-u" in kind and impl.startswith("err"):
                 continue   # the unstripped structure tag becomes an entity that the entity validator rejects
-            if impl.startswith("err:other:"):
+            if impl.startswith("err:other:") and not kind.split("/")[0].startswith("wellformed"):
+                # (on a WELL-FORMED stream an unknown exception class is compared with the model like any other answer)
                 outside += 1
                 ctx.hist("X1 readers", "outside-model:" + rd + ":" + impl[10:])
                 continue
@@ -837,6 +939,7 @@ def correspond(ctx):
     allcases += [("X11 recover reorder filter", c) for c in correspond_reorder(ctx)]
     allcases += [("X13 fileindex locations", c) for c in correspond_locations(ctx)]
     allcases += [("X14 exporter bytes", c) for c in correspond_export_bytes(ctx, results)]
+    allcases += [("X15 reader histories", c) for c in correspond_histories(ctx)]
     # one driver run for all streams
     outs = ctx.driver("C08", [c[0] for _, c in allcases], build=DRIVER_DEPS)
     for (stream, (req, impl, nontriv)), model in zip(allcases, outs):
@@ -1063,8 +1166,9 @@ def gen_line_bytes(rng):
     out = b""
     n = r.choice([0, 1, 2, 3, 5, 8])
     for i in range(n):
-        code = r.choice([0, 1, 2, 3, 5, 8, 9, 100, 330, 1000, 1001, 1071])
-        val = r.choice([b"LINE", b"SECTION", b"", b" pad ", b"abc", b"x" * r.choice([10, 300, 3000]), b"A1", b"tab\tx"])
+        code = r.choice([0, 1, 2, 3, 5, 8, 9, 100, 330, 1000, 1001, 1005])
+        val = r.choice([b"LINE", b"SECTION", b"", b" pad ", b"abc", b"x" * r.choice([10, 300, 3000]), b"A1", b"tab\tx",
+                        b"a\x0bb", b"a\x0cb", b"\x1cx", b"y\x1d", b"a\x1eb", b"a\x85b", b"\x0c"])
         x = r.random()
         if x < 0.05:
             val = b"ab\rcd"
@@ -1110,7 +1214,7 @@ def correspond_lines(ctx):
     from ezdxf import recover
     from ezdxf.addons import iterdxf
     from ezdxf.lldxf.const import DXFStructureError
-    from ezdxf.lldxf.tagger import ascii_tags_loader
+    from ezdxf.lldxf.tagger import ascii_tags_loader, internal_tag_compiler
 
     rng = ctx.rng("lines")
     path = os.path.join(str(ctx.scratch), "lines.dxf")
@@ -1143,6 +1247,16 @@ def correspond_lines(ctx):
             except DXFStructureError:
                 pass      # int(b"") at the end of the stream, always; an invalid group code line ends it earlier
         res.append("G" + show(got, lambda b: b.decode("latin-1")))
+        # internal_tag_compiler on the text IterDXF.load_entities hands to it (`to_str`: decode, \r\n -> \n); it types the
+        # values, so only streams of string-valued group codes; an odd line count is an IndexError there
+        try:
+            # (an empty chunk never occurs - a chunk starts with a structure tag - and is `int("")` there)
+            ctags = list(internal_tag_compiler(data.decode("latin-1").replace("\r\n", "\n"))) if data else []
+            res.append("C" + show(ctags, str))
+        except IndexError:
+            res.append("C?")
+        except ValueError:
+            res.append("Cerr")
         cases.append(("ln|" + " ".join(str(b) for b in data), "|".join(res), len(data) > 0))
     return cases
 
@@ -1173,6 +1287,8 @@ def correspond_export_bytes(ctx, reader_results):
             continue
         if len(cases) >= ctx.n(120, 1500):
             break
+        if not all(v.isascii() for _, v in tags):
+            continue      # (bytes = code points in the byte-level model)
         style = rng.choice(["lf", "crlf", "mixed"])
         flags = [style == "crlf" or (style == "mixed" and rng.random() < 0.5) for _ in tags]
         data = b"".join(b"%3d" % c + (b"\r\n" if f else b"\n") + v.encode("ascii") + (b"\r\n" if f else b"\n")
@@ -1213,6 +1329,71 @@ def correspond_export_bytes(ctx, reader_results):
               + ";".join(f"{c},{esc(v)}" for c, v, _ in written)
         cases.append((req, " ".join(str(b) for b in out), bool(written)))
         ctx.hist("X14 exporter bytes", style + ("/objects" if nobj else "/r12"))
+    return cases
+
+
+# ------------------------------------------------------------------ X15 reader call histories with and without a types filter
+HIST_TYPES = ["LINE", "CIRCLE", "POLYLINE", "INSERT", "TEXT", "VERTEX", "ATTRIB", "SEQEND", "FOOBAR", "POINT", "ARC", "TOLERANCE"]
+
+
+def _history_case(args):
+    """one generated file, 4-7 reads by the iterdxf readers IN ONE PROCESS (the pool worker goes on to the next file with
+    the same interpreter: the history spans files), each with its own `types` filter or none"""
+    seed, idx = args
+    _quiet()
+    from ezdxf.addons import iterdxf
+
+    rng = random.Random(f"{seed}/hist/{idx}")
+    kind, tags = gen_stream(rng)
+    path = os.path.join(_POOL_TMP, "hist-%d.dxf" % os.getpid())
+    with open(path, "wb") as fp:
+        fp.write(file_text(tags).encode("utf8"))
+    fh = {v for c, v in tags if c == 5 and len(v) >= 4}
+    out = []
+    for _ in range(rng.randint(4, 7)):
+        rd = rng.choice(["iter", "sp", "idx"])
+        x = rng.random()
+        if x < 0.35:
+            types = None
+        elif x < 0.42:
+            types = []
+        else:
+            types = rng.sample(HIST_TYPES, rng.choice([1, 1, 2, 3, 4]))
+        # (an empty ITERATOR is truthy for `if types:` and selects nothing; only lists are passed empty)
+        call_types = None if types is None else (iter(types) if types and rng.random() < 0.3 else list(types))
+
+        def run():
+            if rd == "iter":
+                return list(iterdxf.modelspace(path, types=call_types))
+            if rd == "sp":
+                with open(path, "rb") as fp:
+                    return list(iterdxf.single_pass_modelspace(fp, types=call_types))
+            it = iterdxf.opendxf(path)
+            try:
+                return list(it.modelspace(types=call_types))
+            finally:
+                it.close()
+
+        out.append((rd, types, _run(run, fh)))
+    return kind, tags, out
+
+
+def correspond_histories(ctx):
+    global _POOL_TMP
+    _POOL_TMP = str(ctx.scratch)
+    n = ctx.n(500, 8000)
+    with _pool(4) as pool:      # few workers: long histories per interpreter
+        results = pool.map(_history_case, [(ctx.seed, i) for i in range(n)], chunksize=max(1, n // 8))
+    cases = []
+    for kind, tags, calls in results:
+        line = tags_line(tags)
+        for rd, types, impl in calls:
+            if impl.startswith("err:other:"):
+                ctx.hist("X15 reader histories", "outside-model:" + rd + ":" + impl[10:])
+                continue
+            t = "-" if types is None else ",".join(types)
+            ctx.hist("X15 reader histories", rd + ("/all" if not types else "/filtered"))
+            cases.append((f"rdf|{rd}|{t}|-|-|{line}", impl, impl != "ok "))
     return cases
 
 
@@ -1398,13 +1579,16 @@ def correspond_r12(ctx):
         out = io.StringIO()
         with r12writer(out, fixed_tables=fixed) as w:
             for name, kw, _ in calls:
-                getattr(w, name)(**kw)
+                getattr(w, name)(**with_generators(kw, i % 3))      # lists, generators, iterators
         tags = dxfparse.parse_ascii(out.getvalue())
         k = next(j for j, t in enumerate(tags) if t == (2, "ENTITIES")) - 1
         pre, body = tags[:k], tags[k + 2:-2]
         groups = dxfparse.records(body)
         enc, pos = [], 0
         for name, kw, exp in calls:
+            if pos >= len(groups):
+                enc = None
+                break
             if exp[2] is None:
                 g = groups[pos]
                 pos += 1
@@ -1413,10 +1597,14 @@ def correspond_r12(ctx):
                 n = len(exp[2])
                 g = groups[pos]
                 vs = groups[pos + 1: pos + 1 + n]
-                assert groups[pos + 1 + n] == [(0, "SEQEND")], groups[pos + 1 + n]
+                if pos + 1 + n >= len(groups) or groups[pos + 1 + n] != [(0, "SEQEND")]:
+                    enc = None       # not POLYLINE + n VERTEX + SEQEND: reported as a disagreement below
+                    break
                 pos += n + 2
                 enc.append("P~" + tags_line(g[1:]) + "".join("~" + tags_line(v[1:]) for v in vs))
-        assert pos == len(groups)
+        if enc is None or pos != len(groups):
+            cases.append(("r12|-|structure", "the file does not have the structure of the calls: " + str([c[0] for c in calls]), True))
+            continue
         cases.append((f"r12|{tags_line(pre)}|" + "!".join(enc), tags_line(tags), True))
         ctx.hist("X3 r12writer structure", "fixed_tables" if fixed else "plain")
         if i % 5 == 0:
@@ -1532,6 +1720,7 @@ def _wf_case(args):
         else:
             doc, made = build_document(rng, vname, rng.choice(list(CODEPAGES)), False)
             kinds = [m[0] for m in made]
+        settle_document(doc)        # (a first write may change the document: compare the writer model on the settled state)
         out = io.StringIO()
         doc.write(out)
     except _Timeout:
@@ -2314,6 +2503,113 @@ def _doc_case(args):
     return stats, fails, replay, None
 
 
+def _body_without_header(text: str) -> str:
+    """the ENTITIES section of a written ASCII DXF text (what the modelspace readers see; the first write of a new document
+    also completes CLASSES / TABLES / OBJECTS, which is no change of the content)"""
+    i = text.find("\nENTITIES\n")
+    if i < 0:
+        return text
+    j = text.find("\nENDSEC\n", i)
+    return text[i:j] if j >= 0 else text[i:]
+
+
+def settle_document(doc, rounds: int = 3):
+    """write the document until two consecutive writes have the same ENTITIES section; -> True if the first write differed
+    from the second (writing changed the entities), None if a write raised (the caller's own write reports it)"""
+    try:
+        prev = io.StringIO()
+        doc.write(prev)
+        prev = _body_without_header(prev.getvalue())
+        differs = False
+        for _ in range(rounds):
+            out = io.StringIO()
+            doc.write(out)
+            cur = _body_without_header(out.getvalue())
+            if cur == prev:
+                break
+            differs = True
+            prev = cur
+        return differs
+    except _Timeout:
+        raise
+    except Exception:  # noqa
+        return None
+
+
+def reader_purity(path, ver, with_handle, tag, res):
+    """O3 reader purity: a read with a `types` filter (list or one-shot iterator) returns exactly the entities of the
+    unfiltered read whose type was asked for, and an unfiltered read AFTER filtered reads by any iterdxf reader returns
+    what it returned before; iterdxf.SUPPORTED_TYPES is the same set afterwards"""
+    from ezdxf.addons import iterdxf
+
+    fails = []
+    ref = res.get("iterdxf.modelspace")
+    if isinstance(ref, str) or ref is None:
+        return fails
+    rng = random.Random("purity/" + tag)
+    before = set(iterdxf.SUPPORTED_TYPES)
+    present = sorted({s_[0] for s_ in ref} - {"VERTEX", "ATTRIB", "SEQEND"})
+    pool = sorted(set(present + ["LINE", "CIRCLE", "MTEXT", "HATCH"]) - {"POLYLINE", "INSERT"})
+    types = rng.sample(pool, min(len(pool), rng.choice([1, 2, 3])))
+    for extra in ("POLYLINE", "INSERT"):    # independently: asking for one of them alone must not deliver the SEQEND of the other
+        if rng.random() < 0.5:
+            types.append(extra)
+
+    def readers(t):
+        def od():
+            it = iterdxf.opendxf(path)
+            try:
+                return snaps(it.modelspace(types=t() if t else None), ver, with_handle)
+            finally:
+                it.close()
+
+        def sp():
+            with open(path, "rb") as fp:
+                return snaps(iterdxf.single_pass_modelspace(fp, types=t() if t else None), ver, with_handle)
+
+        return {"iterdxf.modelspace": lambda: snaps(iterdxf.modelspace(path, types=t() if t else None), ver, with_handle),
+                "iterdxf.single_pass_modelspace": sp, "iterdxf.opendxf": od}
+
+    def guarded(fn):
+        signal.alarm(20)
+        try:
+            return fn()
+        except _Timeout:
+            return "EXC watchdog"
+        except Exception as ex:  # noqa
+            return f"EXC {type(ex).__name__}: {str(ex)[:100]}"
+        finally:
+            signal.alarm(0)
+
+    makers = [lambda: list(types), lambda: iter(list(types)), lambda: set(types)]
+    for k, (name, fn) in enumerate(readers(makers[rng.randrange(3)]).items()):
+        got = guarded(fn)
+        base_ = res.get(name)
+        if isinstance(got, str):
+            fails.append((f"filter/{name}/raised/{got.split(':')[0][4:]}", f"{tag}: {name}(types={types}) {got}"))
+        elif not isinstance(base_, str) and base_ is not None:
+            exp = [s_ for s_ in base_ if s_[0] in types]
+            d = diff(exp, got)
+            if d:
+                fails.append((f"filter/{name}/{d[0]}", f"{tag}: {name}(types={types}) is not the unfiltered result restricted to these types: {d[1]}"))
+    for name, fn in readers(None).items():
+        got = guarded(fn)
+        base_ = res.get(name)
+        if isinstance(got, str) or isinstance(base_, str) or base_ is None:
+            if isinstance(got, str) and not isinstance(base_, str):
+                fails.append((f"purity/{name}/raised", f"{tag}: {name} without filter after filtered reads: {got}"))
+            continue
+        d = diff(base_, got)
+        if d:
+            fails.append((f"purity/{name}/{d[0]}", f"{tag}: {name} without filter returns something else after reads with types={types}: {d[1]}"))
+    if set(iterdxf.SUPPORTED_TYPES) != before:
+        fails.append(("purity/SUPPORTED_TYPES-changed", f"{tag}: iterdxf.SUPPORTED_TYPES changed by reads with types={types}: "
+                      f"lost {sorted(before - set(iterdxf.SUPPORTED_TYPES))[:6]}"))
+        iterdxf.SUPPORTED_TYPES.clear()
+        iterdxf.SUPPORTED_TYPES.update(before)      # keep the rest of this worker's documents meaningful
+    return fails
+
+
 def run_writers(doc, ver, tag, base, stats):
     import json
 
@@ -2323,6 +2619,11 @@ def run_writers(doc, ver, tag, base, stats):
 
     fails = []
     with_handle = not (ver == "AC1009" and not doc.header.get("$HANDLING", 0))
+    # --- Drawing.write may CHANGE the document (export pre-processing: e.g. a GROUP whose members live in several layouts
+    # is cleared at its first export, after the ENTITIES section went out, and its members lose the reactor).  The
+    # property compares readers on the SAME content, so every format is written from the state after a first, discarded
+    # write; "the second write differs from the first" is recorded as an observation, not as a failure of C08.
+    stats["rewrite_differs"] = settle_document(doc)
     # --- Drawing.write ASCII (LF)
     pa = base + "-a.dxf"
     try:
@@ -2338,6 +2639,7 @@ def run_writers(doc, ver, tag, base, stats):
         fails.append((f"asc/not-wellformed/{probs[0][:30]}", f"{tag}: Drawing.write output: {probs[0]}"))
     res = ascii_readers(pa, ver, with_handle)
     judge(fails, tag, "asc", res)
+    fails += reader_purity(pa, ver, with_handle, tag, res)
     ref = res["readfile"]
     stats["entities"] = len(ref) if not isinstance(ref, str) else -1
     if not isinstance(ref, str):
@@ -2443,6 +2745,7 @@ def oracle(ctx):
     n = ctx.n(210, 6000)
     with _pool(12) as pool:
         results = pool.map(_doc_case, [(ctx.seed, i, tmp) for i in range(n)], chunksize=5)
+    rewrites = []
     for stats, fails, replay, wd in results:
         if wd:
             ctx.hist("O1 documents", wd)
@@ -2453,8 +2756,15 @@ def oracle(ctx):
         ctx.hist("O1 documents", "enc:" + stats["enc"])
         for k in stats["kinds"]:
             ctx.hist("O1 documents", "k:" + k)
+        if stats.get("rewrite_differs"):
+            # observation, not a failure of this property: Drawing.write changed the document (see run_writers)
+            ctx.hist("O1 documents", "note:first-write-changed-the-document")
+            rewrites.append(replay["idx"])
         for key, what in fails:
             ctx.fail(key, what, replay)
+    if rewrites:
+        ctx.note(f"O1: Drawing.write changed {len(rewrites)} document(s) at their first write (the second write differs; all "
+                 f"formats were compared from the settled state), e.g. document #{rewrites[0]}")
     # O2: r12writer call sequences, ASCII and binary, against the input rounded to 6 decimals
     n2 = ctx.n(400, 8000)
     with _pool(12) as pool:
@@ -2525,6 +2835,21 @@ def r3(v):
 
 
 R12_TEXTS = ["plain", "with space ", "äöü ß € ©", "semi;colon", "%%c", "", "x" * 200, 'q"', "back\\slash"]
+
+
+R12_ITERABLE_KEYS = ("vertices", "points", "faces")
+
+
+def with_generators(kw, mode):
+    """the call arguments with every Iterable argument as a one-shot generator (mode 1) or iterator (mode 2)"""
+    if not mode:
+        return kw
+    out = dict(kw)
+    for k in R12_ITERABLE_KEYS:
+        if k in out:
+            data = list(out[k])
+            out[k] = (x for x in data) if mode == 1 else iter(data)
+    return out
 
 
 def gen_r12_calls(rng, fixed):
@@ -2698,7 +3023,8 @@ def _r12_case(args):
         try:
             with r12writer(path, fixed_tables=fixed, fmt=fmt) as w:
                 for name, kw, _ in calls:
-                    getattr(w, name)(**kw)
+                    # every Iterable argument as list / one-shot generator / iterator: the result must not depend on it
+                    getattr(w, name)(**with_generators(kw, (idx // 2) % 3))
         except Exception as ex:  # noqa
             fails.append((f"r12writer/raised/{type(ex).__name__}", f"{tag}: {kinds} raised {type(ex).__name__}: {ex}"))
             continue
